@@ -1,7 +1,7 @@
 """Ad-hoc runner:  python -m pyvc.run <contract name substring> ..."""
 import sys, json
 from pyvc.source import SourceIndex
-from pyvc.verify import verify_unit
+from pyvc.verify import verify_unit, decide_unit
 
 
 def main():
@@ -13,7 +13,7 @@ def main():
     for c in reg.all():
         if pats and not any(p in c.name for p in pats):
             continue
-        r = verify_unit(reg, idx, c)
+        r = decide_unit(reg, idx, c, timeout_ms=int(__import__('os').environ.get('PYVC_T','10000')))
         st = [o["status"] for o in r.obligations]
         print(f"== {r.name}: {r.status} {r.reason} obligations={len(st)} discharged={st.count('discharged')} "
               f"refuted={st.count('refuted')} undecided={st.count('undecided')} paths={r.paths} {r.seconds:.2f}s")
